@@ -120,6 +120,23 @@ theorem C18_required_on (tb : Table) (cands langTags : List Tag) (s : Selection)
 example : selectTable ⟨[⟨TAG_latn, some ⟨TAG_dflt, some 0, []⟩, []⟩], [7]⟩ [TAG_latn] [] =
     .ok (some ⟨true, 0, TAG_latn, none, some (0, 7)⟩) := by decide
 
+/-- GSUB and GPOS are searched independently with the same two tag lists: what is selected in one table does not
+    depend on the other table. -/
+theorem C18_tables_independent (cfg : Cfg) (tables : List (Option Table)) (script : Option Tag)
+    (language : Option Bytes) (st lt : List Tag)
+    (h : tagsFromScriptAndLanguage cfg script language = .ok (st, lt)) :
+    selectAll cfg tables script language =
+      tables.mapM (fun
+        | none => pure none
+        | some tb => selectTable tb st lt) := by
+  unfold selectAll
+  simp only [bind, Except.bind, h]
+  congr 1
+
+example : tagsFromScriptAndLanguage tree (some (fromBytesLossy (asc "Deva"))) none =
+    .ok ([fromBytesLossy (asc "dev3"), fromBytesLossy (asc "dev2"), fromBytesLossy (asc "deva")], []) := by
+  decide +kernel
+
 /-! ## script tags -/
 
 /-- Scripts with several tag generations yield them newest first (`xxx3`, `xxx2`, old tag); Myanmar has no `mym3`;
@@ -135,6 +152,36 @@ theorem C18_script_tags :
     allTagsFromScript none = [] := by
   refine ⟨by decide +kernel, by decide +kernel, ?_, rfl⟩
   intro s h; simp [allTagsFromScript, h]
+
+/-- The shaper follows the generation of the script tag found in GSUB: for each of the nine Indic scripts the
+    `xxx3` tag goes to the universal shaper, `xxx2` and the old tag to the Indic shaper, `DFLT` / `latn` / nothing
+    special to the default shaper (no tag found at all: Indic); Myanmar: `mym2` → Myanmar shaper, `mymr`, `DFLT`,
+    `latn` → default. -/
+theorem C18_shaper_generations :
+    (∀ s ∈ INDIC9, ∀ g : Option Tag, categorize s g =
+      if g = some TAG_DFLT ∨ g = some TAG_latn then .default
+      else if (∃ t, g = some t ∧ t % 256 = 51) then .use else .indic) ∧
+    INDIC9.map (fun s => (allTagsFromScript (some s)).map (fun t => categorize s (some t))) =
+      List.replicate 9 [.use, .indic, .indic] ∧
+    (allTagsFromScript (some (fromBytesLossy (asc "Mymr")))).map (fun t => categorize (fromBytesLossy (asc "Mymr")) (some t)) =
+      [.myanmar, .default] := by
+  refine ⟨?_, by decide +kernel, by decide +kernel⟩
+  intro s hs g
+  have hc : INDIC9.contains s = true := by simpa using hs
+  unfold categorize
+  simp only [hc, if_true]
+  by_cases h1 : g = some TAG_DFLT ∨ g = some TAG_latn
+  · have : (g == some TAG_DFLT || g == some TAG_latn) = true := by
+      rcases h1 with h | h <;> simp [h]
+    simp [this, h1]
+  · have : (g == some TAG_DFLT || g == some TAG_latn) = false := by
+      simp only [not_or] at h1
+      simp [h1.1, h1.2]
+    simp only [this, Bool.false_eq_true, if_false, h1]
+    cases g with
+    | none => simp
+    | some t =>
+      by_cases h3 : t % 256 = 51 <;> simp [h3]
 
 /-! ## languages -/
 
@@ -221,6 +268,9 @@ theorem C18_private_use (cfg : Cfg) (script : Option Tag) (t rest : Bytes)
     all_goals (try split at h)
     all_goals (cases h <;> rfl)
 
+example := C18_private_use tree none (asc "abc") (asc "-zxc") (by decide) (by decide) (by decide)
+  (Or.inr (Or.inr ⟨45, asc "zxc", rfl, rfl⟩))
+
 example : tagsFromScriptAndLanguage tree (some (fromBytesLossy (asc "Copt"))) (some (asc "x-hbotpap0-hbsccopt")) =
     .ok ([fromBytesLossy (asc "copt")], [fromBytesLossy (asc "PAP0")]) := by decide +kernel
 
@@ -240,9 +290,19 @@ def wellknown : List (String × String) := [
   ("cy", "WEL "), ("eu", "EUQ "), ("ca", "CAT "), ("is", "ISL "), ("mt", "MTS "), ("sq", "SQI "), ("mk", "MKD "),
   ("und-fonipa", "IPPH"), ("en-fonnapa", "APPH"), ("syr-Syre", "SYRE"), ("xyz", "XYZ "), ("x-hbotabcd", "ABCD")]
 
-theorem C18_wellknown :
-    wellknown.all (fun p => firstLang tree (asc p.1) == some (fromBytesLossy (asc p.2))) = true := by
-  decide +kernel
+def wellknownOk (ps : List (String × String)) : Bool :=
+  ps.all (fun p => firstLang tree (asc p.1) == some (fromBytesLossy (asc p.2)))
+
+theorem C18_wellknown : wellknownOk wellknown = true := by
+  have h1 : wellknownOk (wellknown.take 26) = true := by decide +kernel
+  have h2 : wellknownOk ((wellknown.drop 26).take 26) = true := by decide +kernel
+  have h3 : wellknownOk (wellknown.drop 52) = true := by decide +kernel
+  have e : wellknown = wellknown.take 26 ++ ((wellknown.drop 26).take 26 ++ wellknown.drop 52) := by
+    have : wellknown.drop 52 = (wellknown.drop 26).drop 26 := by rw [List.drop_drop]
+    rw [this, List.take_append_drop, List.take_append_drop]
+  rw [e]
+  unfold wellknownOk at *
+  rw [List.all_append, List.all_append, h1, h2, h3]; rfl
 
 /-! ## totality (tag part of C01) -/
 
